@@ -36,12 +36,24 @@ type schedSpec struct {
 	Via   string        // "schedule" (c.Schedule) | "addfunc" (c.AddFunc)
 	Block bool          // the job blocks on the harness gate
 	Zs    bool          // zone sensitive by its minute/hour/day fields
+	// Bad: the job function ends abnormally on its BadOn-th run (BadRep: on every
+	// BadOn-th run): "panic" (only under a Recover wrapper) or "goexit" (runtime.Goexit)
+	Bad    string
+	BadOn  int
+	BadRep bool
 }
 
 func (s schedSpec) String() string {
 	b := ""
 	if s.Block {
 		b = "!"
+	}
+	if s.Bad != "" {
+		b += fmt.Sprintf("%s#%d", s.Bad, s.BadOn)
+		if s.BadRep {
+			b += "*"
+		}
+		b += ":"
 	}
 	if s.Every > 0 {
 		return fmt.Sprintf("%s@every %v/%s", b, s.Every, s.Via[:1])
@@ -109,6 +121,7 @@ type ent struct {
 	spec  schedSpec
 	sched cron.Schedule // the harness's own parsed copy (reference side)
 	id    cron.EntryID
+	nInv  int // runs of the job function so far (under world.mu)
 }
 
 type startRec struct {
@@ -576,10 +589,11 @@ type plan struct {
 func TestCheck(t *testing.T) {
 	rec = mon.Open("C05")
 	defer rec.Close()
-	rec.Note("rule", "a case is one history of 10-60 Schedule/AddFunc/Remove/Entries/Entry/Start/Stop/release operations and clock advances run against the real Cron inside a synctest bubble, over 1-8 entries drawn from @every 1/2/3/5/7/2.5s and seconds-resolution specs (equal, nested, co-prime, phase-shifted, unsatisfiable), jobs returning at once or blocking on a gate. (lockstep) default RealClock on virtual time, synctest.Wait after every operation, the multiset of job starts and every Entries/Entry snapshot must EQUAL a reference scheduler built on the real Schedule.Next; sleeps go to exact activation instants, between them and far past them. (jump) the same on internal/vclock, the clock jumps over several activations in one step: one start per due entry per wake-up. (racing) 2-6 goroutines issue operations at chosen virtual instants (mostly whole seconds = activation instants), the scheduler is perturbed at the arm/wake hooks and in 1/3 of the cases parked there while operations are placed; in half of the cases the RealClock's timers deliver through a proxy (hook timer) that can hold a fired timer within its instant, so that a client call of the same instant reaches the select first; an offline judge sweeps the stamped log: exact activation instants, starts optional only where a Remove of that entry or a Stop shares the instant and stamps do not decide. (directed) entries with blocking jobs due at T, the scheduler parked at the wake hook (timer received, nothing started yet) or the arm hook at T, Stop - once or twice - and optionally Remove/Schedule/Entries issued meanwhile, scheduler resumed: no context returned by Stop may be Done while a job started before that Stop returned (wake hook stamp < Stop return stamp) is blocked on the gate, all Done after the release; judged by the racing judge as well. (added-between family, a third of the lockstep/jump cases and sprinkled into the rest) a running Cron with a near (1-3 s) and a far (30 min / 1 h / daily) entry gets one or two entries whose first activation lies strictly between the head's and the far one's, directly followed by one clock advance past the head's and the new entry's activation (just past, exactly onto it, past several of its activations); in jump mode that is ONE wake-up which must start the new entry once and leave Entries with its Prev/Next advanced; in 3/5 of these (and 1/8 of all other jump steps) the scheduler is parked at the arm hook right after that wake-up and Entries / Stop / Remove(new entry) / Schedule is issued before it re-arms: the wake-up began before the call, so the reference has every due entry started and advanced. (life cycle) every start is either Start() or `go Run()` (per-case bias none/mixed/mostly), restarts are Stop->Start or Stop->go Run(), any number of times, with entries added and removed before, between and after; at every quiescent point exactly the Run() call carrying the live scheduler is unreturned (Run returns after Stop). A cron.Logger (WithLogger) is the environment callback on the scheduler goroutine: on stop it can hold the OUTGOING scheduler (Stop has returned, run()/Run() not yet) for the next 1-4 operations - typically the restart, adds/removes and clock advances - and on start, wake, run, added, removed it holds the live scheduler within the instant while the next operation (Stop, Schedule, Remove, Entries, Start ...) is issued from a goroutine; a directed life-cycle family (add, start, [stop held-on-stop, ops, restart, ops] x1-3, stop, long advance, entries, add, start) is in a quarter of the lockstep/jump cases. The sequential reference stays valid because held operations take effect in issue order. (chain) the Cron is built WithChain(probe, W...) with W in {none, Recover, DelayIfStillRunning, SkipIfStillRunning, Recover+Delay, Recover+Skip} (half of the cases none; Delay only in jump mode, because a delayed invocation waits on a sync.Mutex, which freezes a bubble's clock); the harness probe is the outermost wrapper and records what the scheduler does (one start per activation - all oracles above, and Stop's context waits for it), the user job function inside records what the wrapper does and is judged per entry at the end of the case: none/Recover - begins at the activation; Delay - runs of one entry never overlap and the job function of an activation begins at max(activation, return of the entry's previous run); Skip - skipped iff the entry's previous run is still going (either way if it returned at that very instant); jobs of other entries, blocked or not, never matter (counted: on_time_while_other_entry_blocked). In chain cases half of the entries block on the gate and releases are more frequent. (location) in 45% of the lockstep/jump/racing cases the Cron has WithLocation(L), L in {+05:30, -03:30, -09:30, +05:30:07, America/New_York, Europe/Berlin (half of these start 0-3 h before a DST transition of the year 2000)}, while the clock hands out times in time.Local/UTC; the long modes then use zone-sensitive specs (hourly, two-hourly, 20-minute, daily ...) with advances of minutes to hours (jump: up to 30 h in one step), the short racing histories see the location through the sub-minute offset +05:30:07 which makes every seconds-resolution spec zone sensitive; the reference evaluates the real Schedule.Next on times converted to L and instants are compared with Equal. Non-trivial = at least one job start was observed and compared; distinct = distinct operation list.")
+	rec.Note("rule", "a case is one history of 10-60 Schedule/AddFunc/Remove/Entries/Entry/Start/Stop/release operations and clock advances run against the real Cron inside a synctest bubble, over 1-8 entries drawn from @every 1/2/3/5/7/2.5s and seconds-resolution specs (equal, nested, co-prime, phase-shifted, unsatisfiable), jobs returning at once or blocking on a gate. (lockstep) default RealClock on virtual time, synctest.Wait after every operation, the multiset of job starts and every Entries/Entry snapshot must EQUAL a reference scheduler built on the real Schedule.Next; sleeps go to exact activation instants, between them and far past them. (jump) the same on internal/vclock, the clock jumps over several activations in one step: one start per due entry per wake-up. (racing) 2-6 goroutines issue operations at chosen virtual instants (mostly whole seconds = activation instants), the scheduler is perturbed at the arm/wake hooks and in 1/3 of the cases parked there while operations are placed; in half of the cases the RealClock's timers deliver through a proxy (hook timer) that can hold a fired timer within its instant, so that a client call of the same instant reaches the select first; an offline judge sweeps the stamped log: exact activation instants, starts optional only where a Remove of that entry or a Stop shares the instant and stamps do not decide. (directed) entries with blocking jobs due at T, the scheduler parked at the wake hook (timer received, nothing started yet) or the arm hook at T, Stop - once or twice - and optionally Remove/Schedule/Entries issued meanwhile, scheduler resumed: no context returned by Stop may be Done while a job started before that Stop returned (wake hook stamp < Stop return stamp) is blocked on the gate, all Done after the release; judged by the racing judge as well. (added-between family, a third of the lockstep/jump cases and sprinkled into the rest) a running Cron with a near (1-3 s) and a far (30 min / 1 h / daily) entry gets one or two entries whose first activation lies strictly between the head's and the far one's, directly followed by one clock advance past the head's and the new entry's activation (just past, exactly onto it, past several of its activations); in jump mode that is ONE wake-up which must start the new entry once and leave Entries with its Prev/Next advanced; in 3/5 of these (and 1/8 of all other jump steps) the scheduler is parked at the arm hook right after that wake-up and Entries / Stop / Remove(new entry) / Schedule is issued before it re-arms: the wake-up began before the call, so the reference has every due entry started and advanced. (life cycle) every start is either Start() or `go Run()` (per-case bias none/mixed/mostly), restarts are Stop->Start or Stop->go Run(), any number of times, with entries added and removed before, between and after; at every quiescent point exactly the Run() call carrying the live scheduler is unreturned (Run returns after Stop). A cron.Logger (WithLogger) is the environment callback on the scheduler goroutine: on stop it can hold the OUTGOING scheduler (Stop has returned, run()/Run() not yet) for the next 1-4 operations - typically the restart, adds/removes and clock advances - and on start, wake, run, added, removed it holds the live scheduler within the instant while the next operation (Stop, Schedule, Remove, Entries, Start ...) is issued from a goroutine; a directed life-cycle family (add, start, [stop held-on-stop, ops, restart, ops] x1-3, stop, long advance, entries, add, start) is in a quarter of the lockstep/jump cases. The sequential reference stays valid because held operations take effect in issue order. (chain) the Cron is built WithChain(probe, W...) with W in {none, Recover, DelayIfStillRunning, SkipIfStillRunning, Recover+Delay, Recover+Skip} (half of the cases none; Delay only in jump mode, because a delayed invocation waits on a sync.Mutex, which freezes a bubble's clock); the harness probe is the outermost wrapper and records what the scheduler does (one start per activation - all oracles above, and Stop's context waits for it), the user job function inside records what the wrapper does and is judged per entry at the end of the case: none/Recover - begins at the activation; Delay - runs of one entry never overlap and the job function of an activation begins at max(activation, return of the entry's previous run); Skip - skipped iff the entry's previous run is still going (either way if it returned at that very instant); jobs of other entries, blocked or not, never matter (counted: on_time_while_other_entry_blocked). A third of the entries under a chain with Recover (an eighth elsewhere) have a job function that ends abnormally on a seeded run (1st-3rd, or every n-th): by panic only where Recover is in the chain, by runtime.Goexit anywhere; a run that ended this way HAS ended (Delay: the next run of the entry follows; Stop's context completes). In chain cases half of the entries block on the gate and releases are more frequent. (location) in 45% of the lockstep/jump/racing cases the Cron has WithLocation(L), L in {+05:30, -03:30, -09:30, +05:30:07, America/New_York, Europe/Berlin (half of these start 0-3 h before a DST transition of the year 2000)}, while the clock hands out times in time.Local/UTC; the long modes then use zone-sensitive specs (hourly, two-hourly, 20-minute, daily ...) with advances of minutes to hours (jump: up to 30 h in one step), the short racing histories see the location through the sub-minute offset +05:30:07 which makes every seconds-resolution spec zone sensitive; the reference evaluates the real Schedule.Next on times converted to L and instants are compared with Equal. Non-trivial = at least one job start was observed and compared; distinct = distinct operation list.")
 	rec.Observe("jump: number of armed vclock timers after an operation (more than one would mean an abandoned timer); counted as jump.observed_more_than_one_armed_timer, not judged - the statement does not speak about timers")
 	rec.Observe("order of the Entries() slice (sorted by Next as of the last loop iteration, unstable among equals): snapshots are compared as sets keyed by ID")
-	rec.Note("require", []string{"starts.compared", "lockstep.entries_compared", "jump.multi_activation_jumps", "jump.starts_once_per_wake", "racing.same_instant.total", "racing.ops_at_activation_instant", "loc.zone_sensitive_repeat_starts.lockstep", "loc.zone_sensitive_repeat_starts.jump", "loc.zone_sensitive_repeat_starts.racing", "loc.cases.+05:30", "loc.cases.-03:30", "loc.cases.-09:30", "loc.cases.+05:30:07", "chain.cases.recover", "chain.cases.delay", "chain.cases.skip", "chain.cases.recover+delay", "chain.cases.recover+skip", "chain.delay.on_time_while_other_entry_blocked", "chain.skip.on_time_while_other_entry_blocked", "chain.none.on_time_while_other_entry_blocked", "chain.delay.delayed_until_previous_run_returned", "chain.skip.skipped_while_previous_run_going", "lifecycle.started_via_run", "lifecycle.stop_of_scheduler_started_via_run", "lifecycle.restart_of_scheduler_started_via_run", "lifecycle.outgoing_scheduler_held_on_stop", "lifecycle.restart_while_outgoing_scheduler_held_on_stop", "lifecycle.run_return_checked", "lifecycle.held_on_start", "lifecycle.held_on_wake", "lifecycle.held_on_run", "lifecycle.held_on_added", "lifecycle.held_on_removed", "lifecycle.held_on_wake.then_stop", "lifecycle.held_on_run.then_stop", "logger.stop", "jump.placed_after_wake.entries", "jump.placed_after_wake.stop", "jump.placed_after_wake.rm-last", "jump.placed_after_wake.add", "jump.placed_after_wake_with_several_due", "between.jump_over_head_and_new_entry", "between.jump_exactly_onto_new_entry", "between.jump_past_several_of_new_entry", "between.lockstep_advance_over_new_entry", "directed.stop_during_wake", "directed.stop_during_wake.no_job_running_yet", "directed.stop_during_arm", "directed.stop_ctx_checked_while_job_blocked", "directed.stop_ctx_checked_after_release", "stopctx.job_started_between_stop_call_and_return", "racing.parked.wake", "racing.parked.arm", "racing.parked.timer", "racing.same_instant.remove_vs_wake.started", "racing.same_instant.remove_vs_wake.not_started", "racing.same_instant.stop_vs_wake.not_started", "racing.same_instant.stop_vs_wake.wake_first_all_due_required", "racing.same_instant.entries_vs_transition.saw_pre", "racing.same_instant.entries_vs_transition.saw_post", "stopctx.seen_not_done_while_job_blocked", "stopctx.done_after_jobs_returned", "restart.recomputed", "hook.wake", "hook.arm"})
+	rec.Observe("SkipIfStillRunning on the pinned tree hands its token back with a plain statement after j.Run(): after a run of an entry ended by panic (recovered by an outer Recover) or runtime.Goexit every later activation of that entry is skipped (counters chain.skip.observed_skipped_after_{panic,goexit}_of_earlier_run; chain.skip.observed_invoked_after_* stays 0). The scheduler still starts the wrapped job once per activation, which is all the statement speaks about, so this is counted, not judged")
+	rec.Note("require", []string{"starts.compared", "lockstep.entries_compared", "jump.multi_activation_jumps", "jump.starts_once_per_wake", "racing.same_instant.total", "racing.ops_at_activation_instant", "loc.zone_sensitive_repeat_starts.lockstep", "loc.zone_sensitive_repeat_starts.jump", "loc.zone_sensitive_repeat_starts.racing", "loc.cases.+05:30", "loc.cases.-03:30", "loc.cases.-09:30", "loc.cases.+05:30:07", "chain.delay.later_run_after_panic", "chain.delay.later_run_after_goexit", "chain.none.later_run_after_panic", "chain.none.later_run_after_goexit", "chain.cases.recover", "chain.cases.delay", "chain.cases.skip", "chain.cases.recover+delay", "chain.cases.recover+skip", "chain.delay.on_time_while_other_entry_blocked", "chain.skip.on_time_while_other_entry_blocked", "chain.none.on_time_while_other_entry_blocked", "chain.delay.delayed_until_previous_run_returned", "chain.skip.skipped_while_previous_run_going", "lifecycle.started_via_run", "lifecycle.stop_of_scheduler_started_via_run", "lifecycle.restart_of_scheduler_started_via_run", "lifecycle.outgoing_scheduler_held_on_stop", "lifecycle.restart_while_outgoing_scheduler_held_on_stop", "lifecycle.run_return_checked", "lifecycle.held_on_start", "lifecycle.held_on_wake", "lifecycle.held_on_run", "lifecycle.held_on_added", "lifecycle.held_on_removed", "lifecycle.held_on_wake.then_stop", "lifecycle.held_on_run.then_stop", "logger.stop", "jump.placed_after_wake.entries", "jump.placed_after_wake.stop", "jump.placed_after_wake.rm-last", "jump.placed_after_wake.add", "jump.placed_after_wake_with_several_due", "between.jump_over_head_and_new_entry", "between.jump_exactly_onto_new_entry", "between.jump_past_several_of_new_entry", "between.lockstep_advance_over_new_entry", "directed.stop_during_wake", "directed.stop_during_wake.no_job_running_yet", "directed.stop_during_arm", "directed.stop_ctx_checked_while_job_blocked", "directed.stop_ctx_checked_after_release", "stopctx.job_started_between_stop_call_and_return", "racing.parked.wake", "racing.parked.arm", "racing.parked.timer", "racing.same_instant.remove_vs_wake.started", "racing.same_instant.remove_vs_wake.not_started", "racing.same_instant.stop_vs_wake.not_started", "racing.same_instant.stop_vs_wake.wake_first_all_due_required", "racing.same_instant.entries_vs_transition.saw_pre", "racing.same_instant.entries_vs_transition.saw_post", "stopctx.seen_not_done_while_job_blocked", "stopctx.done_after_jobs_returned", "restart.recomputed", "hook.wake", "hook.arm"})
 	nLock := mon.Pick(900, 40000)
 	nJump := mon.Pick(500, 25000)
 	nRace := mon.Pick(1000, 35000)
